@@ -722,3 +722,30 @@ Proof.
   - destruct Hr as [_ [k [i [_ Hf]]]]. exfalso. exact (Hh _ _ _ Hf).
   - left. split; [reflexivity|exact (proj2 Hr)].
 Qed.
+
+(* ---------- overlapping requests on different handles ---------- *)
+
+Lemma handle_run_ok H idx blob nc : index_describes H idx blob -> snd nc = H (fst nc) ->
+  forall rqs s, ipos_ok H idx s -> Forall (fun rq => store_sound H (fst (fst (fst rq)))) rqs ->
+  ipos_ok H idx (fst (handle_run nc idx s rqs)).
+Proof.
+  intros Hd Hnc. induction rqs as [|[[[st calls] off] len] rest IH]; intros s Hok Hs; [exact Hok|].
+  inversion Hs as [|? ? Hs1 Hs2]; subst. cbn [fst] in Hs1. cbn [handle_run].
+  pose proof (fuse_read_ok H idx blob Hd st nc Hnc Hs1 s calls off len Hok) as H1.
+  destruct (fuse_read st nc idx (s, calls) off len) as [[s' c'] r]. cbn [fst] in H1.
+  specialize (IH s' H1 Hs2). destruct (handle_run nc idx s' rest) as [s'' rs]. exact IH.
+Qed.
+
+Theorem fuse_overlapping_reads H maxsz idx blob rqs st calls off len :
+  index_describes H idx blob ->
+  Forall (fun rq => store_sound H (fst (fst (fst rq)))) rqs -> store_sound H st ->
+  let nc := new_null_chunk H maxsz in
+  let s := fst (handle_run nc idx (new_ipos idx) rqs) in
+  fuse_post blob st calls (snd (fst (fuse_read st nc idx (s, calls) off len))) off len
+            (snd (fuse_read st nc idx (s, calls) off len)) \/ Collision H.
+Proof.
+  intros Hd Hs Hst nc s.
+  apply (fuse_read_spec H idx blob Hd st nc (null_chunk_ok H maxsz) Hst).
+  apply (handle_run_ok H idx blob nc Hd (null_chunk_ok H maxsz)); [|exact Hs].
+  apply new_ipos_ok. exact (proj1 Hd).
+Qed.
